@@ -320,6 +320,11 @@ def _ordered(node):
 def _first_evaluated(st):
     """the call that is evaluated before anything else with an effect in statement st (a Return / Assign / Expr), when it
     is not the whole value: `return h(a).sum()`, `x = h(a)[0] + 1`, `g(h(a), b)`; None otherwise"""
+    if isinstance(st, ast.Raise):
+        # `raise helper(a, b)`: the helper builds the exception
+        if st.exc is None or st.cause is not None or not isinstance(st.exc, ast.Call) or not _simple(st.exc.func):
+            return None
+        return st.exc
     if not isinstance(st, (ast.Return, ast.Assign, ast.Expr)) or st.value is None:
         return None
     if isinstance(st, ast.Assign) and not all(isinstance(t, ast.Name) for t in st.targets):
@@ -560,5 +565,78 @@ def splice(tree, known_top, known_methods, known_closures, top_functions):
         notes.append('new %s %s() spliced back into %d call site(s)%s' % (
             {'top': 'function', 'method': 'method', 'closure': 'closure'}[kind], name, spliced[k2], '' if not still else ' (still referenced elsewhere)'))
     if spliced:
+        ast.fix_missing_locations(tree)
+    return notes
+
+
+def closures_back(tree, known_top, ref_closures, top_functions):
+    """Undo "closure turned into a module-level function": the reference function F defines a closure G(p..) that F no
+    longer has, while F (and nobody else) calls a new module-level function H(p.., v..) whose extra parameters v are, at
+    every call, given F's own variables of the same names - what G used to capture.  H's body is put back into F as G,
+    in front of the first statement that calls it, and the calls drop the passed-through arguments.  Returns notes."""
+    notes = []
+    new_top = {st.name: st for st in tree.body if isinstance(st, ast.FunctionDef) and st.name not in known_top and not st.decorator_list}
+    if not new_top:
+        return notes
+    for qual, f in top_functions(tree):
+        want = ref_closures.get(qual) or {}
+        have = {x.name for x in ast.walk(f) if isinstance(x, ast.FunctionDef) and x is not f}
+        missing = [g for g in want if g not in have]
+        if len(missing) != 1:
+            continue
+        gname, gparams = missing[0], want[missing[0]]
+        for hname, h in list(new_top.items()):
+            a = h.args
+            if a.vararg or a.kwarg or a.kwonlyargs or a.posonlyargs:
+                continue
+            hparams = [p.arg for p in a.args]
+            extra = [p for p in hparams if p not in gparams]
+            if [p for p in hparams if p in gparams] != gparams or not extra:
+                continue
+            calls = [c for c in ast.walk(f) if isinstance(c, ast.Call) and isinstance(c.func, ast.Name) and c.func.id == hname]
+            elsewhere = [n for n in ast.walk(tree) if isinstance(n, ast.Name) and n.id == hname and not any(n is y for y in ast.walk(f))]
+            if not calls or elsewhere or gname in {n.id for n in ast.walk(f) if isinstance(n, ast.Name)}:
+                continue
+            ok = True
+            for c in calls:
+                bound = _bind(h, c, False)
+                if bound is None or any(not (isinstance(bound[p], ast.Name) and bound[p].id == p) or getattr(bound[p], '_is_default', False) for p in extra):
+                    ok = False
+                    break
+            # the captured variables must be F's own (parameters or locals)
+            f_names = {n.id for n in ast.walk(f) if isinstance(n, ast.Name) and isinstance(n.ctx, ast.Store)} | {x.arg for x in f.args.args + f.args.kwonlyargs}
+            if not ok or any(p not in f_names for p in extra):
+                continue
+            # defaults of the kept parameters keep their places (defaults align to the end of the parameter list)
+            ndef = len(a.defaults)
+            defaults = dict(zip(hparams[len(hparams) - ndef:], a.defaults))
+            if any(p in defaults for p in extra):
+                continue
+            kept_defaults = [defaults[p] for p in gparams if p in defaults]
+            g = ast.FunctionDef(name=gname, args=ast.arguments(posonlyargs=[], args=[ast.arg(arg=p) for p in gparams], kwonlyargs=[], kw_defaults=[],
+                                                               defaults=kept_defaults), body=_body(h), decorator_list=[], returns=None, type_params=[])
+            for c in calls:
+                kept_pos = []
+                for i_, a_ in enumerate(c.args):
+                    if i_ < len(hparams) and hparams[i_] in extra:
+                        continue
+                    kept_pos.append(a_)
+                c.args = kept_pos
+                c.keywords = [k for k in c.keywords if k.arg not in extra]
+                c.func.id = gname
+            # in front of the first top-level statement of F that contains a call
+            idx = min(i_ for i_, st in enumerate(f.body) if any(c is y for c in calls for y in ast.walk(st)))
+            like = f.body[idx]
+            ast.copy_location(g, like)
+            for y in ast.walk(g):
+                if hasattr(y, 'lineno') or isinstance(y, (ast.expr, ast.stmt)):
+                    y.lineno, y.col_offset = like.lineno, max(0, like.col_offset - 1)
+                    y.end_lineno, y.end_col_offset = like.lineno, like.col_offset
+            f.body.insert(idx, g)
+            tree.body.remove(h)
+            new_top.pop(hname)
+            notes.append('new function %s() put back into %s as its closure %s()' % (hname, qual, gname))
+            break
+    if notes:
         ast.fix_missing_locations(tree)
     return notes
